@@ -89,6 +89,7 @@ def simulate(program, deselected=None):
     ref.open_containers = set()
     ref.skipped_by_hook = set()     # (kind, name) excluded at run time by their own before-hook
     ref.untouched = []      # instance names never reached (stop / abort)
+    ref.no_background = set()   # instance names that ran without the inherited background steps (use_background = False)
     ref.suppressed = set()  # instance names whose body was suppressed by a before-hook failure
     state = {"aborted": False, "stopped": False}
 
@@ -98,6 +99,7 @@ def simulate(program, deselected=None):
             self.cleanups = []      # (id, raises)
             self.hook_failed = False
             self.skip_requested = False     # a before-hook called <element>.skip()
+            self.no_background = False      # the before_scenario hook set scenario.use_background = False
 
     layers = [Layer("testrun", "")]
 
@@ -119,6 +121,11 @@ def simulate(program, deselected=None):
             # in a before-hook); in any other hook this fault kind does nothing
             if owner is not None and name in ("before_feature", "before_rule", "before_scenario"):
                 owner.skip_requested = True
+            return False
+        if faults.get(k) == "no_background":
+            # the before_scenario hook switches the background off for its scenario (scenario.use_background = False)
+            if owner is not None and name == "before_scenario":
+                owner.no_background = True
             return False
         if faults.get(k) == "skip_feature":
             # an after_scenario hook skips the rest of its (partly executed) feature: the remaining scenarios
@@ -201,6 +208,10 @@ def simulate(program, deselected=None):
         for t in inst["tags"]:
             hook("before_tag", t, layer)
         hook("before_scenario", name, layer)
+        if layer.no_background:
+            steps = list(inst["item"]["steps"])
+            outcomes = [step_outcome(s, row, run_index) for s in steps]
+            ref.no_background.add(name)
         sts = []
         proc = []
         if layer.skip_requested and not layer.hook_failed:
